@@ -45,6 +45,8 @@ L1 == <<<<97, 32, 123>>, <<32, 32, 98, 58, 32, 34, 233, 34, 59>>, <<125>>, <<>>>
 L2 == <<<<97, 32, 123>>, <<>>, <<32, 32, 98, 58, 32, 34, 233, 34, 59>>, <<32>>, <<125>>, <<>>, <<>>>>     \* + blank lines
 L3 == <<<<97, 32, 123>>, <<32, 32, 98, 58, 32, 34, 101, 34, 59>>, <<125>>, <<>>>>          \* é -> e
 L4 == <<<<97, 32, 123>>, <<125>>, <<32, 32, 98, 58, 32, 34, 233, 34, 59>>, <<>>>>          \* lines swapped
+L5 == <<<<97, 32, 123>>, <<32, 32, 98, 58, 32, 34, 92, 34, 39, 34, 59>>, <<125>>, <<>>>>   \* a {\n  b: "\"'";\n}\n
+L6 == <<<<97, 32, 123>>, <<32, 32, 98, 58, 32, 34, 34, 39, 34, 59>>, <<125>>, <<>>>>       \* the quote not escaped
 R(st, l) == [st |-> st, lines |-> l]
 ASSUME Laws ==
   /\ RoundTripOK(R("ok", L1), R("ok", L1))
@@ -69,5 +71,7 @@ ASSUME Scopes ==
   /\ ~Predicted(Deviations, <<It("d_str", "dquote", <<34>>)>>, R("ok", L1), R("err", <<>>))
   /\ ~Predicted(Deviations, <<It("d_ident", "astralsym", <<128512>>)>>, R("ok", L1), R("ok", L3))
   /\ ~Predicted(Deviations, <<It("d_str", "quotes2", <<34, 39>>)>>, R("ok", L1), R("panic", <<>>))
-  /\ Predicted(Deviations, <<It("d_str", "ascii", <<120>>), It("d_str", "quotes2", <<34, 39>>)>>, R("ok", L1), R("err", <<>>))
+  /\ Predicted(Deviations, <<It("d_str", "ascii", <<120>>), It("d_str", "quotes2", <<34, 39>>)>>, R("ok", L5), R("err", <<>>))
+  /\ ~Predicted(Deviations, <<It("d_str", "quotes2", <<34, 39>>)>>, R("ok", L6), R("err", <<>>))        \* no escaped quote in out1
+  /\ ~Predicted(Deviations, <<It("d_ident", "astralsym", <<128512>>)>>, R("ok", L1), R("err", <<>>))    \* the character is not in out1
 =============================================================================
